@@ -260,12 +260,26 @@ class RunReactorTask(Task):
             self.iteration_done(I, "returned")
 
 
+# The upper-layer half of the exchange - the received A-RELEASE-RQ becomes the release indication (AR-2, or AR-8 on a collision)
+# and nothing else, in particular no timer that could run out while the user is busy; the user's response is sent as A-RELEASE-RP
+# (AR-4 / AR-9) - is the state machine's contract (C04), re-proved under this id for the release actions and the two events
+RELEASE_ACTIONS = ("AR-2", "AR-4", "AR-8", "AR-9", "AR-10")
+RELABEL = {"C04/": "C07/release-actions:"}
+RELABEL_ONLY = {"C04/": r"fsm:AR_(2|4|8|9|10)/(protocol-effects-are-exactly-PS3\.8|next-state-is-PS3\.8|no-exception|indication)|"
+                        r"do_action/(performs-exactly-the-Table-9-10-action|moves-to-the-state-the-action-returned)"}
+
+
 def tasks(tier):
-    return [IsReleaseRequestedTask(), CallSiteScan(), S.WrapHandlerTask("C20/"), RunReactorTask(), W.WrapTask("find"), W.WrapTask("getmove")]
+    from contracts import C04
+    return [IsReleaseRequestedTask(), CallSiteScan(), S.WrapHandlerTask("C20/"), RunReactorTask(), W.WrapTask("find"), W.WrapTask("getmove")] + \
+        [C04.ActionTask(a) for a in RELEASE_ACTIONS] + [C04.DoActionTask(e) for e in ("Evt12", "Evt14")]
 
 
 def replay(rec):
     from pyvc.replay import run_replay
+    oid = rec.get("id", "")
+    if oid.startswith("C07/release-actions:"):
+        return run_replay("C04", dict(rec, id="C04/" + oid[len("C07/release-actions:"):]))
     return run_replay("C07", rec)
 
 
